@@ -1179,8 +1179,13 @@ impl<'a> World<'a> {
                         continue;
                     }
                 }
+                // a differing content version of a held mutable record is owed like any other record
+                // (fixed in /repo: add_keys compares the held record type); differing kinds are only recorded
                 match self.index.get(k) {
-                    Some(other) => other_version.push((*k, *t, *other)),
+                    Some(other) => match (t, other) {
+                        (Ty::NonChunk(_), Ty::NonChunk(_)) => owed.push((*k, *t)),
+                        _ => other_version.push((*k, *t, *other)),
+                    },
                     None => owed.push((*k, *t)),
                 }
             }
@@ -1190,22 +1195,8 @@ impl<'a> World<'a> {
                 if round > 2 {
                     self.rep.probe("liveness_needed_more_than_two_rounds");
                 }
-                // a version of a key the node holds in another version is never admitted
-                for (k, t, other) in other_version {
-                    match (t, other) {
-                        (Ty::NonChunk(_), Ty::NonChunk(_)) => {
-                            self.violate(
-                                "liveness.advertised_version_never_fetched",
-                                "key_held_with_other_version",
-                                format!(
-                                    "h{h} keeps advertising k{k}/{} in range; the node holds k{k}/{}; add_keys skips every held key, so the divergent version is never queued or fetched",
-                                    t.tag(),
-                                    other.tag()
-                                ),
-                            );
-                        }
-                        _ => self.rep.probe("advertised_kind_differs_from_held_kind"),
-                    }
+                for (_k, _t, _other) in other_version {
+                    self.rep.probe("advertised_kind_differs_from_held_kind");
                 }
                 break;
             }
